@@ -40,6 +40,7 @@ let parse_bitop op =
   else if starts op "u32." then OpU (n_of_int 32, n_of_string (after op "u32."))
   else if starts op "i32." then OpI32 (n_of_string (after op "i32."))
   else if starts op "k" then OpSkip (n_of_string (after op "k"))
+  else if starts op "R" then OpReader (n_of_string (after op "R"))
   else failwith ("bad bit op " ^ op)
 
 let parse_byteop op =
